@@ -39,18 +39,26 @@ UNDECIDED = [re.compile(r'[Rr]esource limit'), re.compile(r'rlimit'), re.compile
 
 
 def limited(cmd, mem_gb, timeout_s, cwd=None, env=None):
-    """Run under prlimit --as and a wall clock timeout. Returns (rc, stdout, stderr, wall, timed_out)."""
+    """Run under prlimit --as and a wall clock timeout, in its own process group (killed as a group on timeout so
+    that no solver process is orphaned). Returns (rc, stdout, stderr, wall, timed_out)."""
+    import signal
     full = ['prlimit', '--as=%d' % (mem_gb * 1024 ** 3), '--'] + cmd
     t0 = time.time()
+    p = subprocess.Popen(full, cwd=cwd, env=env, stdout=subprocess.PIPE, stderr=subprocess.PIPE, text=True,
+                         errors='replace', start_new_session=True)
     try:
-        p = subprocess.run(full, cwd=cwd, env=env, stdout=subprocess.PIPE, stderr=subprocess.PIPE,
-                           timeout=timeout_s, text=True, errors='replace')
-        return p.returncode, p.stdout, p.stderr, time.time() - t0, False
-    except subprocess.TimeoutExpired as e:
-        subprocess.run(['pkill', '-f', 'cbmc'], stdout=subprocess.DEVNULL, stderr=subprocess.DEVNULL) if 'kani' in ' '.join(cmd) else None
-        so = e.stdout.decode(errors='replace') if isinstance(e.stdout, bytes) else (e.stdout or '')
-        se = e.stderr.decode(errors='replace') if isinstance(e.stderr, bytes) else (e.stderr or '')
-        return -9, so, se, time.time() - t0, True
+        so, se = p.communicate(timeout=timeout_s)
+        return p.returncode, so, se, time.time() - t0, False
+    except subprocess.TimeoutExpired:
+        try:
+            os.killpg(p.pid, signal.SIGKILL)
+        except OSError:
+            pass
+        try:
+            so, se = p.communicate(timeout=20)
+        except Exception:
+            so, se = '', ''
+        return -9, so or '', se or '', time.time() - t0, True
 
 
 def exec_fns(text):
